@@ -27,6 +27,108 @@ type config struct {
 	Pkgs     []string `json:"pkgs"`     // supplied native package paths
 	GoStmt   bool     `json:"go_stmt"`
 	Globals  []string `json:"globals,omitempty"` // template globals declared
+	// Chain (Importer == "chain"): a native.CombinedImporter of these links, in order.
+	Chain []link `json:"chain,omitempty"`
+}
+
+// link is one importer of a chain: native.Packages or a custom importer that
+// returns a package for the paths of Pkgs (path -> variant, see variantPackage),
+// (nil, error) for the paths of Err and (nil, nil) for everything else; or a
+// nested CombinedImporter.
+type link struct {
+	Type   string            `json:"type"` // packages | custom
+	Pkgs   map[string]string `json:"pkgs,omitempty"`
+	Err    []string          `json:"err,omitempty"`
+	Nested []link            `json:"nested,omitempty"`
+	ID     string            `json:"id,omitempty"` // appears in the error message
+}
+
+func (l link) errMsg(path string) string { return "policy of importer " + l.ID + " denies " + path }
+
+// answer is what an importer gives for a path.
+type answer struct {
+	Kind    string // pkg | err | nil
+	Variant string // for pkg
+	Msg     string // for err
+}
+
+// The documented contract of native.Importer / native.CombinedImporter as a
+// small executable model: "Import calls the Import method of each importer and
+// returns as soon as an importer returns a package" — or an error ("If an error
+// occurs it returns the error, if the package does not exist it returns nil and
+// nil"): the first importer of the chain that answers with a package or with an
+// error decides.
+func (l link) answer(path string) answer {
+	if len(l.Nested) > 0 {
+		return chainAnswer(l.Nested, path)
+	}
+	if v, ok := l.Pkgs[path]; ok {
+		if _, ok := variantPackage(path, v); ok {
+			return answer{Kind: "pkg", Variant: v}
+		}
+	}
+	if l.Type != "packages" {
+		for _, e := range l.Err {
+			if e == path {
+				return answer{Kind: "err", Msg: l.errMsg(path)}
+			}
+		}
+	}
+	return answer{Kind: "nil"}
+}
+
+func chainAnswer(chain []link, path string) answer {
+	for _, l := range chain {
+		if a := l.answer(path); a.Kind != "nil" {
+			return a
+		}
+	}
+	return answer{Kind: "nil"}
+}
+
+// resolve applies the model to the configured importer.
+func (c config) resolve(path string) answer {
+	switch c.Importer {
+	case "nil":
+		return answer{Kind: "nil"}
+	case "chain":
+		return chainAnswer(c.Chain, path)
+	}
+	for _, p := range c.Pkgs {
+		if p == path {
+			if _, ok := allPackages()[p]; ok {
+				return answer{Kind: "pkg"}
+			}
+		}
+	}
+	if c.Importer == "customerr" {
+		return answer{Kind: "err", Msg: fmt.Sprintf("importer: no package %q here", path)}
+	}
+	return answer{Kind: "nil"}
+}
+
+// candidatePaths lists every path the configuration may answer with a package.
+func (c config) candidatePaths() []string {
+	set := map[string]bool{}
+	for _, p := range c.Pkgs {
+		set[p] = true
+	}
+	var walk func(ls []link)
+	walk = func(ls []link) {
+		for _, l := range ls {
+			for p := range l.Pkgs {
+				set[p] = true
+			}
+			walk(l.Nested)
+		}
+	}
+	walk(c.Chain)
+	var out []string
+	for p := range set {
+		out = append(out, p)
+	}
+	sort.Strings(out)
+	return out
 }
 
 type caseData struct {
@@ -37,23 +139,18 @@ type caseData struct {
 	Expect   string            `json:"expect"`          // build | fail | any
 	Probe    string            `json:"probe,omitempty"` // the forbidden / undecided construct
 	Features []string          `json:"features"`        // legit snippet kinds, with placement
+	// ExpectErr: text the build error must contain (the error of the importer
+	// that, by the model, decides the import). ExpectCalls: supplied functions
+	// that must appear in the call log of the run.
+	ExpectErr   string   `json:"expect_err,omitempty"`
+	ExpectCalls []string `json:"expect_calls,omitempty"`
 	// Concurrent: the case combines go statements with host callbacks, so the
 	// host-initiated tag of the call log is not reliable: the log cross-check
 	// is then one-directional.
 	Concurrent bool `json:"concurrent,omitempty"`
 }
 
-func (c config) has(path string) bool {
-	if c.Importer == "nil" {
-		return false
-	}
-	for _, p := range c.Pkgs {
-		if p == path {
-			return true
-		}
-	}
-	return false
-}
+func (c config) has(path string) bool { return c.resolve(path).Kind == "pkg" }
 
 func (c config) hasGlobal(name string) bool {
 	for _, g := range c.Globals {
